@@ -76,7 +76,10 @@ class SpecEval:
             if base.kind == "ghost":
                 return self.st.ghost_get(node.attr)
             return self.ex.global_attr(base, node.attr)
-        return self.ex.attr_read_pure(base, node.attr, self.st)
+        r = self.ex.attr_read_pure(base, node.attr, self.st)
+        if r.ty.kind == "list":
+            self.facts.append(V.list_len(r) >= 0)      # well-formedness of every list stored in the heap
+        return r
 
     def ev_Subscript(self, node):
         base = self.ev(node.value)
@@ -641,6 +644,9 @@ def binop(op, a, b, facts):
             return O.set_binop("intersection", a, b, facts)
         if isinstance(op, ast.BitOr):
             return O.set_binop("union", a, b, facts)
+    if a.ty.kind == "opaque" and isinstance(op, ast.Div):
+        bb = O.coerce(b, T.OPAQUE) if (O.is_strlit(b) or b.ty.kind != "opaque") else b
+        return apply_uf("pathjoin", T.OPAQUE, [a, bb])       # pathlib: Path / name
     if a.ty.kind in ("opaque", "name") or b.ty.kind in ("opaque", "name"):
         if isinstance(op, ast.Add):
             aa = O.coerce(a, T.OPAQUE) if O.is_strlit(a) else a
